@@ -88,6 +88,12 @@ pub fn global_names() -> Vec<String> {
 // ---------------------------------------------------------------------------------------------
 // H1: yield points
 
+/// Identity of a lock for the hooks: its address.
+#[inline]
+pub fn addr_of<T: ?Sized>(x: &T) -> usize {
+    x as *const T as *const () as usize
+}
+
 /// Kind of acquisition about to happen.
 #[derive(Clone, Copy, Debug, PartialEq, Eq)]
 pub enum Acq {
